@@ -7,6 +7,11 @@ require (
 	verif.local/vsched v0.0.0
 )
 
+require (
+	github.com/shamaton/msgpack/v2 v2.1.1 // indirect
+	github.com/vmihailenco/msgpack v4.0.4+incompatible // indirect
+)
+
 replace github.com/bartossh/Computantis/src => /repo/src
 
 replace verif.local/vsched => /verif/engine/vsched
